@@ -98,3 +98,13 @@ From VT Require Import Model.PMHeader Proofs.PMHeaderProofs.
 Theorem C19_pmtiles_header_total : forall l, soft (pmh_deserialize l).
 Proof. exact pmh_deserialize_soft. Qed.
 Print Assumptions C19_pmtiles_header_total.
+
+(* shifting a tile index by the block's data offset never fails, whatever offsets a damaged file holds
+   (they saturate; the range then lies outside every file and reading it is an error) *)
+Lemma C19_gen_tidx_offset : tidx_offset_variant = 1%N.  Proof. reflexivity. Qed.
+Theorem C19_tile_index_offset_total : forall o idx, exists out, tidx_add_offset o idx = Ok out.
+Proof. exact tidx_add_offset_total. Qed.
+Print Assumptions C19_tile_index_offset_total.
+Theorem C19_tile_index_offset_overflow_refuted_before_fix :
+  tidx_add_offset_v 0 66 [(u64_max - 2, 5)]%N = Overflow /\ tidx_add_offset 66 [(u64_max - 2, 5)]%N = Ok [(u64_max, 5%N)].
+Proof. exact tidx_add_offset_overflow_v0. Qed.
